@@ -1,4 +1,12 @@
 //! further case kinds, one module per family
-pub fn run_case(kind: &str, _fields: Vec<String>) -> Vec<String> {
-    vec![format!("X unknown-kind {}", kind)]
+pub fn run_case(kind: &str, fields: Vec<String>) -> Vec<String> {
+    match kind {
+        // the REPL's private completeness test, through the ruschm_verif hook
+        "bracket" => vec![if ruschm::repl::verif_check_bracket_closed(&fields[0]) {
+            "closed".to_string()
+        } else {
+            "open".to_string()
+        }],
+        _ => vec![format!("X unknown-kind {}", kind)],
+    }
 }
